@@ -768,6 +768,23 @@ MATCHERS = {"c13_wkst_mo_firstweekday": m_firstweekday}
 
 # ------------------------------------------------------------------ main
 
+def gen_status():
+    """what harness/gen_rstr.py produced on this run (coq/gen/RstrGen.v)"""
+    path = os.path.join(C.COQ, "gen", "RstrGen.v")
+    try:
+        head = open(path).read(4000)
+    except OSError:
+        return {"file": "coq/gen/RstrGen.v", "status": "missing"}
+    failed = head.startswith("(* GENERATOR-FAILED")
+    return {"file": "coq/gen/RstrGen.v", "generator": "harness/gen_rstr.py",
+            "status": "translator aborted (file poisoned): " + head[:600] if failed else "regenerated from the source on this run",
+            "translated": ["_rrulestr._handle_int", "_handle_int_list", "_handle_FREQ", "_handle_WKST", "_handle_UNTIL",
+                           "_handle_BYWEEKDAY", "getattr dispatch table (_handle_* names and aliases)",
+                           "_parse_rfc_rrule", "_freq_map", "_weekday_map", "FREQNAMES", "rrule.__str__"],
+            "hand_modelled_ast_pinned": ["_rrulestr._parse_rfc", "_parse_date_value", "_parse_date"],
+            "hand_modelled_unpinned": ["rrule.__init__ (argument processing; differential correspondence only)"]}
+
+
 def new_stats():
     return {"evaluations": 0, "ctor_errors": 0, "naive": 0, "aware": 0, "aware_not_reparsable": 0,
             "aware_wall_differs": 0, "occ_timeouts": 0, "occ_compared": 0, "nontrivial": set(),
@@ -1085,7 +1102,12 @@ def main():
             n_model += 1
         verdict.violation(payload, concrete=bool(conc))
     if not props["ok"] and not verdict.violations:
-        verdict.violation({"kind": "broken proof obligation", "theorem_file": "coq/props/C13.v",
+        verdict.violation({"kind": "broken proof obligation" + (
+            " (translator harness/gen_rstr.py aborted or a C13_gen_* obligation no longer holds: the code of "
+            "__str__ / _handle_* / _parse_rfc_rrule / _parse_rfc changed)" if props["discharged"] >= 41 or
+            "RstrGen" in props["log"] or "generator_failed" in props["log"] else ""),
+                           "regenerated_model": gen_status().get("status"),
+                           "theorem_file": "coq/props/C13.v",
                            "theorems": props["theorems"], "discharged": props["discharged"],
                            "input": None, "log_tail": props["log"][-3000:]}, concrete=False)
     if os.environ.get("VERIF_C13_DEBUG"):
@@ -1131,6 +1153,7 @@ def main():
                               "whole-text level (proved at line level)"],
         "known_findings_hit": verdict.known_hits,
         "anchored_line_coverage": covinfo,
+        "regenerated_model": gen_status(),
     }
     C.write_evidence(CID, tier, t0, props, cov,
                      ["parser.parse modelled only on the compact forms YYYYMMDD[THHMMSS[Z]]",
